@@ -372,7 +372,8 @@ def savedFile (files : Files) (out : Dict) : Option Dict :=
   match sideDict out "left", sideDict out "right" with
   | some L, some R =>
     match shapeOf files L, shapeOf files R with
-    | some (rows, cols), some (rows2, cols2) => savedConfig Pandora.Generated.mainFacts out rows cols rows2 cols2
+    | some (rows, cols), some (rows2, cols2) =>
+      savedConfig Pandora.Generated.mainFacts Pandora.Generated.runWritesIndicator out rows cols rows2 cols2
     | _, _ => none
   | _, _ => none
 
@@ -399,6 +400,11 @@ theorem stepCfgsOf_runPipeline (M : Dict) : stepCfgsOf (runPipeline M) = stepCfg
     | _ => simp [hv]
   · simp [hcvc]
 
+theorem stepCfgsOf_afterRun (w : Bool) (M : Dict) : stepCfgsOf (afterRunPipeline w M) = stepCfgsOf M := by
+  cases w
+  · rfl
+  · simp [afterRunPipeline, stepCfgsOf_runPipeline]
+
 /-- **The saved margins are C20's expected margins of the saved pipeline.**  For every configuration
     `check_conf` accepts, `main` writes a file; its `pipeline` entry `M` is the checked pipeline with the
     indicators `run` wrote, and its `margins` entry is `expectedMarginsJ rows cols (stepCfgsOf M)`:
@@ -417,7 +423,8 @@ theorem saved_margins_expected (files : Files) (fl : MachineFlags) (user kvs P :
       sideDict saved "left" = some L ∧ shapeOf files L = some (rows, cols) ∧
       Dict.lookup saved "pipeline" = some (.obj M) ∧
       Dict.lookup saved "margins" = some (expectedMarginsJ rows cols (stepCfgsOf M)) ∧
-      saved = mainSavedDict Pandora.Generated.mainFacts (runIndicators out) (expectedMarginsJ rows cols (stepCfgsOf M)) := by
+      saved = mainSavedDict Pandora.Generated.mainFacts (afterRun Pandora.Generated.runWritesIndicator out)
+        (expectedMarginsJ rows cols (stepCfgsOf M)) := by
   obtain ⟨L', R', M, hci, hcp, hout⟩ := (C05C.checkConf_ok_iff files fl user kvs P m m' out hin hpi hnd hfresh hwf).1 h
   obtain ⟨_, _, L2, R2, _, _, _, _, _, hform, hshape⟩ := (C17W.checkInputSection_ok_iff files fl kvs _ hnd).1 hci
   simp only [List.cons.injEq, Prod.mk.injEq, JVal.obj.injEq, true_and, and_true] at hshape
@@ -437,18 +444,20 @@ theorem saved_margins_expected (files : Files) (fl : MachineFlags) (user kvs P :
       obtain ⟨⟨⟨⟨hw, hh⟩, _⟩, _⟩, _⟩ := hform
       have hmm := accepted_margins_defined hfresh hwf hcp iml.height iml.width
       rw [← hM] at hmm
-      have hsaved : savedFile files out = some (mainSavedDict Pandora.Generated.mainFacts (runIndicators out)
-          (expectedMarginsJ iml.height iml.width (stepCfgsOf (runPipeline M)))) := by
-        rw [stepCfgsOf_runPipeline, hout]
+      have hsaved : savedFile files out = some (mainSavedDict Pandora.Generated.mainFacts
+          (afterRun Pandora.Generated.runWritesIndicator out)
+          (expectedMarginsJ iml.height iml.width (stepCfgsOf (afterRunPipeline Pandora.Generated.runWritesIndicator M)))) := by
+        rw [stepCfgsOf_afterRun, hout]
         simp only [savedFile, savedConfig, sideDict, Dict.lookup, if_true, shapeOf, hl, hr, Option.map_some,
           show ("input" : String) = "pipeline" ↔ False by decide, show ("left" : String) = "right" ↔ False by decide,
           if_false, ← hw, ← hh, hmm, globalToJ_expected]
-      refine ⟨_, L', runPipeline M, iml.height, iml.width, hsaved, ?_, by simp [shapeOf, hl], ?_, ?_, rfl⟩
-      · rw [hout, runIndicators_shape]
+      refine ⟨_, L', afterRunPipeline Pandora.Generated.runWritesIndicator M, iml.height, iml.width, hsaved, ?_,
+        by simp [shapeOf, hl], ?_, ?_, rfl⟩
+      · rw [hout, afterRun_shape]
         simp [mainSavedDict, source_main_facts.1, source_main_facts.2, sideDict, Dict.lookup, Dict.setKey]
-      · rw [hout, runIndicators_shape]
+      · rw [hout, afterRun_shape]
         simp [mainSavedDict, source_main_facts.1, source_main_facts.2, Dict.lookup, Dict.setKey]
-      · rw [hout, runIndicators_shape]
+      · rw [hout, afterRun_shape]
         simp [mainSavedDict, source_main_facts.1, source_main_facts.2, Dict.lookup, Dict.setKey]
 
 /-- `main` writes a configuration file for every configuration `check_conf` accepts (no margin
@@ -463,13 +472,13 @@ theorem main_config_defined (files : Files) (fl : MachineFlags) (user kvs P : Di
 
 /-- the shapes and the margins `savedFile` reads do not see what `run` wrote: the file `main` would write
     from the configuration after `run` is the file it writes from `check_conf`'s result -/
-theorem savedFile_runIndicators (files : Files) (I : JVal) (M : Dict) :
-    savedFile files (runIndicators [("input", I), ("pipeline", .obj M)]) =
+theorem savedFile_afterRun (files : Files) (I : JVal) (M : Dict) :
+    savedFile files (afterRun Pandora.Generated.runWritesIndicator [("input", I), ("pipeline", .obj M)]) =
       savedFile files [("input", I), ("pipeline", .obj M)] := by
-  rw [runIndicators_shape]
+  rw [afterRun_shape]
   simp only [savedFile, savedConfig, sideDict, Dict.lookup, if_true,
-    show ("input" : String) = "pipeline" ↔ False by decide, if_false, runIndicators_shape, runPipeline_idem,
-    machineMargins, stepCfgsOf_runPipeline]
+    show ("input" : String) = "pipeline" ↔ False by decide, if_false, afterRun_shape, afterRunPipeline_idem,
+    machineMargins, stepCfgsOf_afterRun]
 
 /-- **`cfg/config.json` is a fix-point of `main`** (C05 ∘ C17 ∘ C19 ∘ C20): the file `main` writes for an
     accepted configuration, given to `main` again (fresh machine), is accepted and written again
@@ -490,12 +499,12 @@ theorem main_config_fixpoint (files : Files) (fl : MachineFlags) (user kvs P : D
     rw [hs] at h
     simp only [Option.some.injEq] at h
     subst h
-    obtain ⟨m2', h2⟩ := saved_config_replays_run files fl user kvs P m m' out hin hpi hnd hfresh hwf hc
-      Pandora.Generated.mainFacts source_main_facts.1 (expectedMarginsJ _ _ (stepCfgsOf _)) m2 hfresh2
+    obtain ⟨m2', h2⟩ := saved_config_replays_any Pandora.Generated.runWritesIndicator files fl user kvs P m m' out
+      hin hpi hnd hfresh hwf hc Pandora.Generated.mainFacts source_main_facts.1 (expectedMarginsJ _ _ (stepCfgsOf _)) m2 hfresh2
     rw [← heq] at h2
     obtain ⟨L', R', M, _, _, hout⟩ := (C05C.checkConf_ok_iff files fl user kvs P m m' out hin hpi hnd.1 hfresh hwf).1 hc
-    have : savedFile files (runIndicators out) = savedFile files out := by
-      rw [hout]; exact savedFile_runIndicators files _ M
+    have : savedFile files (afterRun Pandora.Generated.runWritesIndicator out) = savedFile files out := by
+      rw [hout]; exact savedFile_afterRun files _ M
     simp [mainConfig, h2, this, hs]
 
 /-- the margin of a step reads the image shape only for a bilateral filter -/
